@@ -55,14 +55,14 @@ def replaceAll (pat rep : Str) : Str → Str
     else c :: replaceAll pat rep t
 termination_by s => s.length
 decreasing_by
-  all_goals simp_wf
   · rename_i h
     have : 0 < pat.length := by
       cases pat with
       | nil => simp at h
       | cons _ _ => simp
+    simp only [List.length_drop, List.length_cons]
     omega
-  · omega
+  · simp
 
 /-- `'"""' in s` -/
 def hasTriple : Str → Bool
@@ -248,7 +248,7 @@ def partType (r : Str) : R (Kind × TyInfo × Str) :=
 
 inductive Raw where
   | text (s : Str)
-  | cells (l : List Str)      -- a table column: one text per row
+  | cells (json : Bool) (l : List Str)   -- a table column: one text per row (`json`: read by json.loads)
 deriving Repr, DecidableEq
 
 structure Node where
@@ -274,42 +274,43 @@ def decode (s : Str) : Str :=
 
 /-- the part shared by `ModNode.is_node` and the typed `is_node`s after `=`:
     value, units, comment, then the parser must be empty -/
-def valueUnitsTail (k : Nat) (nm : Str) (kind : Kind) (info : TyInfo) (dims : Option (List Dim))
+def valueUnitsTail (nm : Str) (kind : Kind) (info : TyInfo) (dims : Option (List Dim))
     (afterEq : Str) : R Node := do
   let (v, r1) ← partValue afterEq
   let (u, r2) := partUnits r1
   if endOrComment r2 then
-    .ok { kind, indent := k, name := some nm, info, dims, raw := some (.text (decode v)), units := u }
+    .ok { kind, name := some nm, info, dims, raw := some (.text (decode v)), units := u }
   else .error .fail                       -- "Code cannot be parsed"
 
 /-- the recognisers after `part_name`; `rest` is the text behind the name -/
-def afterName (k : Nat) (nm : Str) (rest : Str) : R Node :=
-  if endOrComment rest then .ok { kind := .group, indent := k, name := some nm }
+def afterName (nm : Str) (rest : Str) : R Node :=
+  if endOrComment rest then .ok { kind := .group, name := some nm }
   else
     match dropWs rest with
     | '{' :: _ => if rest.contains '}' then .error .unsupported else .error .fail
     | _ =>
     match partEqual rest with
-    | some v => valueUnitsTail k nm .mod {} none v
+    | some v => valueUnitsTail nm .mod {} none v
     | none => do
       let (kind, info, r0) ← partType rest
       let (dims, r1) ← partDimension r0
       match partEqual r1 with
-      | some v => valueUnitsTail k nm kind info dims v
+      | some v => valueUnitsTail nm kind info dims v
       | none =>
         let (u, r2) := partUnits r1
         if endOrComment r2 then
-          .ok { kind, indent := k, name := some nm, info, dims, units := u, declared := true }
+          .ok { kind, name := some nm, info, dims, units := u, declared := true }
         else .error .fail
 
-/-- everything after `part_indent`; `b` does not start with white space and is not empty -/
-def determineBody (k : Nat) (b : Str) : R Node :=
+/-- everything after `part_indent` (the recorded indentation is attached by `determine`);
+    `b` does not start with white space and is not empty -/
+def determineBody (b : Str) : R Node :=
   match b with
   | '{' :: _ => if b.contains '}' then .error .unsupported else .error .fail
   | '=' :: _ => .error .unsupported            -- option line
   | '!' :: _ =>
     match stripPrefix? "!constant".toList b with
-    | some r => if endOrComment r then .ok { kind := .constant, indent := k } else .error .unsupported
+    | some r => if endOrComment r then .ok { kind := .constant } else .error .unsupported
     | none => .error .unsupported
   | _ =>
     let nm := b.takeWhile isNameCh
@@ -317,21 +318,22 @@ def determineBody (k : Nat) (b : Str) : R Node :=
     match rest with
     | '$' :: _ =>
       match stripPrefix? "$unit".toList rest with
-      | some (c :: _) => if isWs c then .ok { kind := .unit, indent := k } else .error .unsupported
+      | some (c :: _) => if isWs c then .ok { kind := .unit } else .error .unsupported
       | _ => .error .unsupported
     | '@' :: _ => .error .unsupported
     | c :: _ =>
       if nm.isEmpty then .error .fail          -- "Name has an invalid format"
       else if c != ' ' && !isBlank rest then .error .fail
-      else afterName k nm rest
-    | [] => if nm.isEmpty then .error .fail else afterName k nm rest
+      else afterName nm rest
+    | [] => if nm.isEmpty then .error .fail else afterName nm rest
 
 /-- `DIP._determine_node` -/
 def determine (line : Str) : R Node :=
   let code := encode line
   if isBlank code then .ok { kind := .empty }
   else if startsComment code then .ok { kind := .empty }
-  else determineBody (code.takeWhile isWs).length (code.dropWhile isWs)
+  else (determineBody (code.dropWhile isWs)).map
+    (fun nd => { nd with indent := (code.takeWhile isWs).length })
 
 /-! ### `add_string` and `_get_queue` -/
 
